@@ -37,6 +37,46 @@ pub fn emit(mut v: Value) {
     o.insert("i".into(), json!(s.seq));
     o.insert("t".into(), json!(t.unwrap_or(0)));
     s.events.push(v);
+    LAST_EVENT.store(epoch_secs(), std::sync::atomic::Ordering::Relaxed);
+    if s.seq > EVENT_CAP || (s.seq > 50 && std::env::var_os("HV_TEST_HANG").is_some()) {
+        drop(s);
+        hang("more than 1000000 events in one scenario");
+    }
+}
+
+/// No scenario of any driver produces more than about 40 000 events on the unchanged tree; a scenario that
+/// produces a million, or none for ten minutes of wall-clock time, is a livelock of the code under test
+/// (virtual time cannot pass the run's timeout).  That is data: the first events and a `hang` event are
+/// written, the process exits with status 3 and the resumable driver continues with the next scenario.
+pub const EVENT_CAP: u64 = 1_000_000;
+pub const QUIET_SECS: u64 = 600;
+static LAST_EVENT: std::sync::atomic::AtomicU64 = std::sync::atomic::AtomicU64::new(0);
+fn epoch_secs() -> u64 {
+    std::time::SystemTime::now().duration_since(std::time::UNIX_EPOCH).map(|d| d.as_secs()).unwrap_or(0)
+}
+pub fn hang(why: &str) -> ! {
+    {
+        let mut s = SINK.lock().unwrap_or_else(|e| e.into_inner());
+        let run = s.run;
+        s.events.truncate(3000);
+        s.events.retain(|e| e["run"] == json!(run));
+        let i = s.seq + 1;
+        s.events.push(json!({"ev":"hang","run":run,"i":i,"t":0,"why":why}));
+    }
+    if let Some(p) = OUT_PATH.lock().ok().and_then(|p| p.clone()) {
+        flush_to(&p, true);
+    }
+    std::process::exit(3);
+}
+pub fn install_watchdog() {
+    LAST_EVENT.store(epoch_secs(), std::sync::atomic::Ordering::Relaxed);
+    std::thread::spawn(|| loop {
+        std::thread::sleep(std::time::Duration::from_secs(5));
+        let last = LAST_EVENT.load(std::sync::atomic::Ordering::Relaxed);
+        if epoch_secs().saturating_sub(last) > QUIET_SECS {
+            hang("no event for 600 s of wall-clock time");
+        }
+    });
 }
 
 pub fn begin_run(run: u64, reset: Value) {
@@ -75,6 +115,7 @@ pub fn flush_to(path: &str, append: bool) {
 /// A panic of the code under test is data: it is appended to the trace (with the scenario number) and the
 /// trace is flushed, because `run_internet` chains a hook that exits the process.
 pub fn install_panic_hook() {
+    install_watchdog();
     std::panic::set_hook(Box::new(|info| {
         let loc = info.location().map(|l| format!("{}:{}:{}", l.file(), l.line(), l.column())).unwrap_or_default();
         let msg = if let Some(s) = info.payload().downcast_ref::<&str>() {
